@@ -156,4 +156,46 @@ def twoHeaders (date2 : String) : Ctx where
 example : (exec v_BatchHeader_Equal (twoHeaders "240301") [("other", .ref "b")]).2 = .ret (.bool true) := by decide +kernel
 example : (exec v_BatchHeader_Equal (twoHeaders "240302") [("other", .ref "b")]).2 = .ret (.bool false) := by decide +kernel
 
+
+/-- the same comparison with the roles exchanged: the context whose receiver is the header stored under `q` -/
+def swapped (c : Ctx) (q : String) : Ctx := { c with recv := q }
+
+/-- C08 / C09: `Equal` is symmetric — `a.Equal(b)` and `b.Equal(a)` return the same value, for every pair of well-typed
+headers -/
+theorem equal_symm (c : Ctx) (q : String)
+    (h1 : wellTyped c c.recv keyFields) (h2 : wellTyped c q keyFields) :
+    (exec v_BatchHeader_Equal c [("other", .ref q)]).2 =
+      (exec v_BatchHeader_Equal (swapped c q) [("other", .ref c.recv)]).2 := by
+  rw [equal_true_iff_same_key c q h1 h2]
+  have h1' : wellTyped (swapped c q) (swapped c q).recv keyFields := h2
+  have h2' : wellTyped (swapped c q) c.recv keyFields := h1
+  rw [equal_true_iff_same_key (swapped c q) c.recv h1' h2']
+  have : (key c c.recv keyFields = key c q keyFields) ↔ (key (swapped c q) (swapped c q).recv keyFields = key (swapped c q) c.recv keyFields) := by
+    show (key c c.recv keyFields = key c q keyFields) ↔ (key c q keyFields = key c c.recv keyFields)
+    exact eq_comm
+  simp only [this]
+
+/-- C08 / C09: `Equal` is transitive — if `a.Equal(b)` and `b.Equal(c)` return true then so does `a.Equal(c)` -/
+theorem equal_trans (c : Ctx) (q r : String)
+    (h1 : wellTyped c c.recv keyFields) (h2 : wellTyped c q keyFields) (h3 : wellTyped c r keyFields)
+    (hab : (exec v_BatchHeader_Equal c [("other", .ref q)]).2 = .ret (.bool true))
+    (hbc : (exec v_BatchHeader_Equal (swapped c q) [("other", .ref r)]).2 = .ret (.bool true)) :
+    (exec v_BatchHeader_Equal c [("other", .ref r)]).2 = .ret (.bool true) := by
+  rw [equal_true_iff_same_key c q h1 h2] at hab
+  have h2' : wellTyped (swapped c q) (swapped c q).recv keyFields := h2
+  have h3' : wellTyped (swapped c q) r keyFields := h3
+  rw [equal_true_iff_same_key (swapped c q) r h2' h3'] at hbc
+  rw [equal_true_iff_same_key c r h1 h3]
+  have e1 : key c c.recv keyFields = key c q keyFields := by simpa using hab
+  have e2 : key c q keyFields = key c r keyFields := by
+    have : key (swapped c q) (swapped c q).recv keyFields = key (swapped c q) r keyFields := by simpa using hbc
+    exact this
+  simp [e1.trans e2]
+
+/-- … and reflexive -/
+theorem equal_refl (c : Ctx) (h1 : wellTyped c c.recv keyFields) :
+    (exec v_BatchHeader_Equal c [("other", .ref c.recv)]).2 = .ret (.bool true) := by
+  rw [equal_true_iff_same_key c c.recv h1 h1]
+  simp
+
 end Ach.Props.HeaderKey
